@@ -26,17 +26,17 @@ def run_flow(binp, args, timeout=400):
 def body(c):
     q = c.quick
     d = vlib.stage_specs(["flow"])
-    for cfg in ("Flow_drop.cfg", "Flow_close.cfg", "Flow_both.cfg"):
+    for cfg in ("Flow_drop.cfg", "Flow_dropread.cfg", "Flow_close.cfg", "Flow_both.cfg"):
         res = vlib.run_tlc(d, "Flow", cfg, timeout=900, workers=4)
         c.add_tlc(cfg, res)
         vlib.require_tlc_ok(res, cfg)
     binp = vlib.go_build("cmd/flowrun")
     # the as-is constants: TLC's counterexamples, reproduced against the real code
     for cfg, mode in (("Flow_close_asis.cfg", "-straggler"), ("Flow_close_asis.cfg", "-stragglerhang"),
-                      ("Flow_both_asis.cfg", "-closeduringdrop")):
+                      ("Flow_both_asis.cfg", "-closeduringdrop"), ("Flow_dropread_asis.cfg", "-dropstraggler")):
         res = vlib.run_tlc(d, "Flow", cfg, timeout=600, workers=4)
         c.add_tlc(cfg + " (code as it is)", res)
-        if res.violation == "NoPanic":
+        if res.violation in ("NoPanic", "temporal"):
             rc, out, err = run_flow(binp, [mode, "-hang", "20"])
             if rc != 0 or not out.strip():
                 raise Inconclusive("flowrun %s failed: %s" % (mode, err[-1500:]))
@@ -54,7 +54,7 @@ def body(c):
     with open(os.path.join(d, "G.cfg"), "w") as f:
         f.write("SPECIFICATION GenSpec\nCONSTANTS\n  Committers = {1, 2, 3}\n  NWrites = 4\n  ChanCap = 2\n  FlushCap = 1\n"
                 "  MemCap = 1\n  L0Stall = 2\n  L0Trigger = 1\n  NCompactors = 2\n  WithClose = TRUE\n  WithDrop = TRUE\n"
-                "  AtomicSend = TRUE\n  SerialCloseDrop = TRUE\n  HistLen = 20\nINVARIANTS Emit\n")
+                "  AtomicSend = TRUE\n  DropReads = FALSE\n  SerialCloseDrop = TRUE\n  HistLen = 20\nINVARIANTS Emit\n")
     res = vlib.run_tlc(d, "FlowGen", "G.cfg", timeout=600, workers=2, simulate=(200 if q else 3000), depth=120, seed=c.seed)
     if not res.ok:
         raise Inconclusive("FlowGen failed: %s" % res.error_trace[:1500])
